@@ -205,6 +205,29 @@ func TestC17SecretKey(t *testing.T) {
 			t.Fatalf("C17 VIOLATED: DeriveKey after Zero failed or gave another key (err=%v)\n%s", err, ctx())
 		}
 
+		// a fresh key that is wiped before it was ever stored: the creating
+		// passphrase brings the key back, and what is stored after that accepts
+		// the passphrase too (the order of Zero and the first Marshal is the caller's)
+		if rapid.IntRange(0, 2).Draw(t, "freshKeyZeroedFirst") == 0 {
+			c.Class("fresh-key-zeroed-before-first-marshal")
+			arg := append([]byte(nil), pass...)
+			skF, err := snacl.NewSecretKey(&arg, N, r, p)
+			if err != nil {
+				t.Fatalf("C17 VIOLATED: second NewSecretKey failed: %v\n%s", err, ctx())
+			}
+			fresh := *skF.Key
+			skF.Zero()
+			if rapid.Bool().Draw(t, "marshalWhileZeroed") {
+				skF = load(skF.Marshal())
+			}
+			if err := derive(skF, pass); err != nil || *skF.Key != fresh {
+				t.Fatalf("C17 VIOLATED: a new key wiped before its first Marshal does not come back with the creating passphrase (err=%v)\n%s", err, ctx())
+			}
+			if err := derive(load(skF.Marshal()), pass); err != nil {
+				t.Fatalf("C17 VIOLATED: the stored form of a key that was wiped and re-derived rejects the creating passphrase: %v\n%s", err, ctx())
+			}
+		}
+
 		// near misses are rejected, the right passphrase still accepted afterwards
 		sk3 := load(m)
 		nms := nearMisses(t, pass)
